@@ -2,8 +2,6 @@ use std::fmt::{Display, Formatter};
 
 const PROJECT_PREFIX: &str = "projects/";
 const TOPIC_PREFIX: &str = "/topics/";
-const PROJECT_PREFIX_LEN: usize = PROJECT_PREFIX.len();
-const TOPIC_PREFIX_LEN: usize = TOPIC_PREFIX.len();
 
 /// A `TopicName` contains the project and the topic.
 #[derive(Debug, Clone, PartialEq, Eq, Hash)]
@@ -31,24 +29,18 @@ impl TopicName {
 
     /// Attempts to parse a topic name.
     pub fn try_parse(unparsed: &str) -> Option<Self> {
-        // Check that the length of the input is at least as long as something that contains
-        // a valid topic name.
-        if unparsed.len() <= PROJECT_PREFIX_LEN + TOPIC_PREFIX_LEN + 2 {
+        // The name must be `projects/{project}/topics/{topic}`.
+        let rest = unparsed.strip_prefix(PROJECT_PREFIX)?;
+
+        // The project ID is everything up to the next slash.
+        let project_id = rest.get(..rest.find('/')?)?;
+
+        // The topic ID is whatever follows the `/topics/` segment.
+        let topic_id = rest.get(project_id.len()..)?.strip_prefix(TOPIC_PREFIX)?;
+
+        if project_id.is_empty() || topic_id.is_empty() {
             return None;
         }
-
-        // Check that we start with the topic prefix.
-        if !unparsed.starts_with(PROJECT_PREFIX) {
-            return None;
-        }
-
-        // Extract the project ID.
-        let project_id = unparsed.get(PROJECT_PREFIX_LEN..)?;
-        let project_id = project_id.get(..project_id.find('/')?)?;
-
-        // Extract the topic ID
-        let start = PROJECT_PREFIX_LEN + project_id.len() + TOPIC_PREFIX_LEN;
-        let topic_id = unparsed.get(start..).map(|s| s.trim_matches('/'))?;
 
         Some(TopicName {
             project_id: project_id.into(),
